@@ -4,7 +4,10 @@ import fcntl, glob, hashlib, importlib, json, os, re, shutil, subprocess, sys, t
 
 ROOT = os.path.dirname(os.path.abspath(__file__))
 REPO = os.environ.get("VERIF_REPO", "/repo")
-LEAN = os.path.join(ROOT, "lean")
+# VERIF_FACTROOT: a trial run (tools/trymut.sh) works on its own copy of lean/ + facts/ so that it never rewrites the
+# shared generated Facts files / build outputs while builders or other checks use them
+FACTROOT = os.environ.get("VERIF_FACTROOT", ROOT)
+LEAN = os.path.join(FACTROOT, "lean")
 BIN = os.path.join(LEAN, ".lake", "build", "bin")
 ALLOWED_AXIOMS = {"propext", "Classical.choice", "Quot.sound"}
 FORBIDDEN = re.compile(r"\bsorry\b|(^|by|;|<;>|·|=>)\s*admit\s*($|;|<;>)|^\s*axiom\s|native_decide|bv_decide|implemented_by|\bunsafe\s|maxHeartbeats\s+0")
@@ -70,11 +73,11 @@ class Ctx:
         if rc != 0:
             raise RuntimeError("extractor build failed:\n" + out)
         with LakeLock(self.id):
-            rc, out = sh([exe, self.id, REPO], env={"VERIF_ROOT": ROOT})
+            rc, out = sh([exe, self.id, REPO], env={"VERIF_ROOT": FACTROOT})
         if rc != 0:
             self.oblige("facts:extract", False, out)
             return None
-        with open(os.path.join(ROOT, "facts", self.id + ".json")) as f:
+        with open(os.path.join(FACTROOT, "facts", self.id + ".json")) as f:
             self.fact_values = json.load(f)
         self.oblige("facts:extract", True)
         return self.fact_values
